@@ -106,6 +106,10 @@ class C04(Check):
                 else:
                     cs.append({"name": name, "idx": idx, "other": True,
                                "small": (not self.thorough) and not edge})
+                if edge:
+                    # the same with the managers' -D/--iodebug option on the dongle (what is logged
+                    # on the error paths)
+                    cs.append({"name": name, "idx": idx, "other": True, "small": True, "iodebug": True})
         return cs
 
     def run(self, name, fault_at):
@@ -124,12 +128,25 @@ class C04(Check):
                     return fault
                 return None
             w.inject = inject
-        proto = harness.make_protocol(w, v1=v1)
+        proto = harness.make_protocol(w, v1=v1, debug=getattr(self, "debug_dongle", False))
         import json
         o = harness.handle_line(proto, json.dumps(req).encode())
         return w, o
 
     def run_case(self, case, stats):
+        self.debug_dongle = bool(case.get("iodebug"))
+        try:
+            vs = self._run_case(case, stats)
+            if self.debug_dongle:
+                for v in vs:
+                    if isinstance(v.d.get("case"), dict):
+                        v.d["case"]["iodebug"] = True
+                        v.d["key"] = v.d["key"] + ":iodebug"
+            return vs
+        finally:
+            self.debug_dongle = False
+
+    def _run_case(self, case, stats):
         vs = []
         name, idx = case["name"], case["idx"]
         if "fault" in case:
